@@ -214,7 +214,7 @@ def call_builtin(E, name, args, kw, st, out, node):
     if name == "set" and args and isinstance(args[0], VCList) and all(isinstance(x, VStr) and z3.is_string_value(z3.simplify(x.t)) for x in args[0].items):
         seen, out_ = set(), []
         for x in args[0].items:
-            k_ = z3.simplify(x.t).as_string()
+            k_ = pystr(z3.simplify(x.t))
             if k_ not in seen:
                 seen.add(k_); out_.append(x)
         return [(st, VCList(out_))]
@@ -322,7 +322,7 @@ def hasattr_(E, v, name, st):
     nt = z3.simplify(name.t)
     if not z3.is_string_value(nt):
         raise OutOfSubset("hasattr with symbolic name")
-    a = nt.as_string()
+    a = pystr(nt)
     if isinstance(v, VRef):
         if a in E.all_fields(v.cls) or E.find_method(v.cls, a):
             return z3.BoolVal(True)
@@ -355,7 +355,7 @@ def call_bound(E, b, args, kw, st, out, node):
             if isinstance(k, VStr):
                 kt = z3.simplify(k.t)
                 if z3.is_string_value(kt):
-                    return [(st, r.d.get(kt.as_string(), dflt))]
+                    return [(st, r.d.get(pystr(kt), dflt))]
                 # symbolic key: ite chain (all values must be strings)
                 vals = [(key, v) for key, v in r.d.items() if isinstance(key, str)]
                 if all(isinstance(v, VStr) for _, v in vals) and isinstance(dflt, VStr):
@@ -409,9 +409,9 @@ def str_method(E, r, m, args, kw, st, out, node):
         if not args:
             return [(st, VStr(E.mk_strip(st, t)))]
         a = z3.simplify(args[0].t)
-        if z3.is_string_value(a) and a.as_string() == "\n":
+        if z3.is_string_value(a) and pystr(a) == "\n":
             return [(st, VStr(E.mk_strip_nl(st, t)))]
-        if z3.is_string_value(a) and a.as_string() == ".":
+        if z3.is_string_value(a) and pystr(a) == ".":
             r2 = strip_dot(t)
             st.assume(z3.Length(r2) <= z3.Length(t))
             return [(st, VStr(r2))]
@@ -454,7 +454,7 @@ def str_method(E, r, m, args, kw, st, out, node):
     if m == "join" and args and isinstance(args[0], VObj):
         # "".join(t) of an opaque tuple of strings
         tv = z3.simplify(t)
-        if z3.is_string_value(tv) and tv.as_string() == "":
+        if z3.is_string_value(tv) and pystr(tv) == "":
             return [(st, VStr(z3.Function("py_str_payload", PyObj, S)(args[0].t)))]
     if m == "splitlines":
         v, asm = fresh(LIST(STR), "splitlines")
@@ -464,13 +464,13 @@ def str_method(E, r, m, args, kw, st, out, node):
     if m == "split":
         tv = z3.simplify(t)
         if z3.is_string_value(tv) and args and z3.is_string_value(z3.simplify(args[0].t)):
-            parts = tv.as_string().split(z3.simplify(args[0].t).as_string())
+            parts = pystr(tv).split(pystr(z3.simplify(args[0].t)))
             return [(st, VCList([VStr(p) for p in parts]))]
         # symbolic receiver with concrete finite alternatives: case split
         alts = _string_alternatives(E, t, st)
         if alts is not None and args and z3.is_string_value(z3.simplify(args[0].t)):
             res = []
-            sep = z3.simplify(args[0].t).as_string()
+            sep = pystr(z3.simplify(args[0].t))
             for a in alts:
                 st2 = st.fork(); st2.assume(t == z3.StringVal(a)); st2.trace.append("%d:alt=%s" % (node.lineno, a))
                 res.append((st2, VCList([VStr(p) for p in a.split(sep)])))
@@ -495,7 +495,7 @@ def _string_alternatives(E, t, st):
 
     def walk(x):
         if z3.is_string_value(x):
-            alts.append(x.as_string())
+            alts.append(pystr(x))
             return True
         if z3.is_app(x) and x.decl().kind() == z3.Z3_OP_ITE:
             return walk(x.arg(1)) and walk(x.arg(2))
@@ -594,7 +594,7 @@ def super_call(E, cname, self_, m, args, st, out, node):
             # contract through the ghost predicate below)
             st.ghost.setdefault("$dyn_setattr", []).append((r, args[0].t))
             return [(st, VNone())]
-        E.store(st, r, nt.as_string(), args[1])
+        E.store(st, r, pystr(nt), args[1])
         return [(st, VNone())]
     if m == "__getattr__" and base == "list":
         # list has no __getattr__: the lookup itself raises AttributeError
